@@ -18,7 +18,7 @@ LEVEL = "model_checking"
 RULE = ("response tables: full product status x media type x schema kind for single-response operations, a pair matrix for "
         "two responses (incl. default/2XX/invalid keys), component-response references, one reusable response under several statuses of an operation, references carrying their own description/summary; inputs: for every documented status "
         "each RM-inst body, undocumented statuses (JSON, non-UTF-8 and empty bodies) x raise_on_unexpected_status x the four call variants; non-trivial = the "
-        "operation was generated and at least one documented response was decoded")
+        "operation was generated and at least one documented response was decoded; unions whose members interact (closed models sharing a key, primitive before constructed member), free-form and numeric text/* schemas next to typed ones, an undocumented status outside http.HTTPStatus, raw reply headers under any casing and repeated fields")
 FLOOR = 0.5
 ASSUMPTIONS = ["httpx.Response decoding (json(), text, content) is trusted",
                "text/*: raw text or schema-decoded text accepted; octet-stream: file object or bytes accepted; empty-schema JSON: value or None accepted"]
